@@ -18,6 +18,8 @@ def files():
     G.add_method(svc, "Upload", ".acme.lab.v1.Req", ".acme.lab.v1.Resp", client_streaming=True)
     G.add_method(svc, "Chat", ".acme.lab.v1.Req", ".acme.lab.v1.Resp", client_streaming=True, server_streaming=True)
     G.add_method(svc, "Policy", ".google.iam.v1.GetIamPolicyRequest", ".google.iam.v1.Policy", http=("post", "/v1/{resource=p/*}:pol"), body="*")
+    # a plain-protobuf request from a dependency package with a response of the API's own package
+    G.add_method(svc, "PolicyNote", ".google.iam.v1.GetIamPolicyRequest", ".acme.lab.v1.Resp", http=("post", "/v1/{resource=p/*}:note"), body="*")
     fd.dependency.append("google/iam/v1/iam_policy.proto")
     return [fd]
 
@@ -72,6 +74,25 @@ def scenarios():
         out = client.policy(request={"resource": "p/9"})
         if len(log) != 1 or log[0][1] != "/acme.lab.v1.Lab/Policy" or iam_policy_pb2.GetIamPolicyRequest.FromString(log[0][2]).resource != "p/9" or out.version != 3:
             failures.append({"case": "sync policy(dict)", "channel_log": repr(log)[:200], "returned": repr(out)})
+        # dependency-package request, own-package response: message / dict / omitted on both clients
+        for pyname, rpc, own_reply in (("policy", "Policy", False), ("policy_note", "PolicyNote", True)):
+            for form, req in (("message", iam_policy_pb2.GetIamPolicyRequest(resource="p/9")), ("dict", {"resource": "p/9"}), ("omitted", None)):
+                for which, cl in (("sync", client), ("async", aclient)):
+                    cases += 1
+                    log.clear()
+                    try:
+                        out = getattr(cl, pyname)(request=req) if req is not None else getattr(cl, pyname)()
+                        if which == "async":
+                            out = asyncio.run(_await(out))
+                    except Exception as e:      # noqa
+                        failures.append({"case": f"{which} {pyname}({form})", "error": repr(e)[:200]})
+                        continue
+                    want = iam_policy_pb2.GetIamPolicyRequest(resource="p/9" if req is not None else "")
+                    if len(log) != 1 or log[0][1] != f"/acme.lab.v1.Lab/{rpc}" or log[0][2] != want.SerializeToString():
+                        failures.append({"case": f"{which} {pyname}({form})", "channel_log": repr(log)[:200]})
+                    exp = lab_v1.Resp(note="re:" + rpc) if own_reply else policy_pb2.Policy(version=3)
+                    if out != exp:
+                        failures.append({"case": f"{which} {pyname}({form})", "returned": repr(out)[:100], "server_sent": repr(exp)[:100]})
         # streaming arities (sync)
         for pyname, rpc, kind in (("watch", "Watch", "unary_stream"), ("upload", "Upload", "stream_unary"), ("chat", "Chat", "stream_stream")):
             cases += 1
